@@ -74,6 +74,58 @@ CHECKS.update({
     },
 })
 
+CHECKS.update({
+    "C01": {
+        "engine": "SHAPE", "category": "exploration",
+        "technique": "bounded-exhaustive enumeration of reactions x builder configurations; set-algebra invariants on the real model plus numeric evaluation from four-momenta",
+        "text": "every factory reaction within the spin/size bound (partial helicity sets, identical particles, multi-topology, 2-5 final states) and the qrules catalogue x alignment x dynamics x stable ids x scalar mass x couplings x adapter extras is formulated by the real builder; each model must satisfy parameter-xor-kinematic-variable, no undefined amplitude, momentum-only kinematic variables, and must evaluate to finite numbers from four-momenta",
+        "note": "numeric evaluation for two switch combinations per case; bounds: spins <= 1 (3/2 thorough), <= 40 (200) transitions per reaction",
+        "design": "3/C01",
+    },
+    "C02": {
+        "engine": "SHAPE", "category": "exploration",
+        "technique": "bounded-exhaustive enumeration of synthetic and catalogue reactions x configurations against an independent implementation of the helicity formula (own Wigner-D / Clebsch-Gordan / naming / symmetrisation)",
+        "text": "per (reaction, configuration) every A_ component, every amplitude entry, every I_ component and the full intensity are compared with the reference on an angle grid (tensor grid deciding the trigonometric polynomial for one node) and on the polarisation basis of the coefficients (decides the Hermitian form for all complex coefficient values)",
+        "note": "angles are free variables here; identical particles with spin are out of scope; multi-node reactions use a rank-1 lattice of 24 angle points; spins <= 1 quick, <= 3 (one node) / 3/2 (two nodes) thorough",
+        "design": "3/C02",
+    },
+    "C08": {
+        "engine": "SHAPE", "category": "exploration",
+        "technique": "bounded-exhaustive enumeration of matrix classes and chains x code paths x cse x batch size on a direction / beta-gamma / angle lattice against a numpy reference and the algebraic laws of the statement",
+        "text": "all boost/rotation classes, named laws and multiplication chains up to length 4, both code paths (doit+lambdify, as_explicit), cse on/off, batch sizes 1/2/5(/17); Lorentz-group laws plus element-wise agreement with an independent numpy implementation",
+        "note": "tolerance eps*gamma^2 (rounding) makes the laws weak at beta*gamma >= 1e3; p = 0 excluded",
+        "design": "3/C08",
+    },
+    "C09": {
+        "engine": "SHAPE", "category": "exploration",
+        "technique": "bounded-exhaustive enumeration of (class, channels, poles, L, phase-space variant, flag) x parameter/s lattice; unitarity, symmetry and agreement with a numpy K(1-i rho K)^-1 reference",
+        "text": "n_channels 1-2 (3), n_poles 1-3 (4), L 0-2 (4), three real phase-space variants, T and T-hat; mass sets incl. degenerate poles and a pole below a channel threshold; 12 s points above the highest threshold",
+        "note": "parameters substituted before doit (s symbolic); tolerance scaled by cond(1 - i rho K)",
+        "design": "3/C09",
+    },
+    "C10": {
+        "engine": "SHAPE", "category": "exploration",
+        "technique": "bounded-exhaustive enumeration of P-vector configurations: numeric residual of the K-matrix equation, provenance walk over the expression DAG, documented reductions, and all two-call formulate histories",
+        "text": "(i) residual (1-iK)F-P with the library's own parametrisations, (ii) every phase-space class / L / radius occurring anywhere in the result is the one passed (7 protocol implementations), (iii) one-channel-one-pole reductions to the Breit-Wigner functions, (iv) every ordered pair of formulate calls gives the result of the same call in a fresh state",
+        "note": "3-channel RelativisticPVector is not explored (its symbolic inverse does not terminate in an hour): reported as cap; mutation of returned matrices by the caller is counted, not judged",
+        "design": "3/C10",
+    },
+    "C11": {
+        "engine": "SHAPE", "category": "exploration",
+        "technique": "bounded-exhaustive enumeration of the seven phase-space expressions x mass configurations x binding mode x dtype x cse on an s lattice containing every region and boundary the code distinguishes",
+        "text": "identities of the statement (Re rho = 2q/sqrt s, rho^c = i rho-hat, rho^eq = rho^CM for equal masses on the whole axis, continuity at threshold, q^2 symmetry and zeros) plus closed-form references; NaN never counts as agreement; ill-conditioned float64 points are re-evaluated with 50-digit arithmetic",
+        "note": "a lattice is only a lattice; s = 0 excluded (pole of q^2)",
+        "design": "3/C11",
+    },
+    "C12": {
+        "engine": "SHAPE", "category": "exploration",
+        "technique": "bounded-exhaustive enumeration of L x code path x phase-space factor x builder flags, plus an operation-history exploration of the Blatt-Weisskopf polynomial cache",
+        "text": "B_L^2 normalisation, threshold behaviour and boundedness, polynomial path = Hankel path = scipy for L <= 10 (16), Gamma(m0^2) = Gamma0 for five phase-space factors, builder API = function API for all flag combinations; all short request orders over the lru_cache (eviction exercised in thorough)",
+        "note": "below threshold only builder vs library function is compared (no real Hankel reference there)",
+        "design": "3/C12",
+    },
+})
+
 NOT_YET = "check not implemented yet at this commit (planned, see DESIGN.md section 7)"
 
 
